@@ -22,6 +22,7 @@ LEVEL = 'exploration'
 TEXTS = ['c', 'two words', 'x\ny', 'x\n\ny', '\n', '  lead', '#', "it's", '"q"', ')]}', 'a,b', 'w' * 100,
          '\xe9', 'trail  ', 'a\n', '\nb', ' ', 'tab\there', 'w ' * 40, '\\', "'''", 'x = [1,\n2]']
 TRAILING_OK = (list, tuple, set, dict)
+SETTINGS = [{'sort_dict_keys': True}, {'max_seq_len': 2}, {'max_seq_len': 1, 'sort_dict_keys': True}, {'depth': 2}, {'depth': 3, 'indent': 2}]
 
 
 def specs():
@@ -43,6 +44,9 @@ def specs():
     yield 'callhug', lambda w: w(0, Call(w(1, [w(2, 1)])))
     yield 'nested', lambda w: w(0, [w(1, [w(2, (w(3, 1),))])])
     yield 'tuple-in-dict', lambda w: w(0, {'k': w(1, (w(2, 'only'),))})
+    yield 'dict-unsorted', lambda w: w(0, {'z': w(1, {'b': 1, 'a': w(2, 2)}), 'y': w(3, [w(4, {'d': 1, 'c': 2})])})
+    yield 'long-containers', lambda w: w(0, {'k': w(1, [1, 2, 3, 4, 5]), 'j': w(2, (1, 2, 3)), 'i': w(3, {1: 1, 2: 2, 3: 3})})
+    yield 'deep', lambda w: w(0, {'k': w(1, [w(2, [w(3, [w(4, 1)])])])})
     yield 'emptylist', lambda w: w(0, [])
     yield 'emptytuple', lambda w: w(0, ())
     yield 'emptydict', lambda w: w(0, {})
@@ -91,7 +95,7 @@ def words_in_order(words, got):
     return all(any(x == g for g in it) for x in words)
 
 
-def check_case(name, builder, pl, texts, width, part, basedump):
+def check_case(name, builder, pl, texts, width, part, basedump, settings=None):
     from prettyprinter import comment, trailing_comment
     attached = []
 
@@ -109,9 +113,11 @@ def check_case(name, builder, pl, texts, width, part, basedump):
     part.n += 1
     case = {'shape': name, 'placement': {str(i): list(k) for i, k in pl.items()},
             'texts': {'%d%s' % (i, k): t for (i, k), t in texts.items() if i in pl and k in pl[i]}, 'width': width}
+    if settings:
+        case['settings'] = settings
     try:
         with core.deadline(10):
-            r = oracles.run_pformat(value, width=width)
+            r = oracles.run_pformat(value, width=width, **(settings or {}))
     except core.Timeout:
         part.violation('timeout', case, None)
         return
@@ -133,6 +139,9 @@ def check_case(name, builder, pl, texts, width, part, basedump):
         got = ' '.join(c[1:] for c in oracles.comment_tokens(r.text)).split()
     except tokenize.TokenError as e:
         part.violation('not-tokenizable', case, {'output': r.text, 'why': str(e)})
+        return
+    if settings and ('max_seq_len' in settings or 'depth' in settings):
+        part.nontrivial += 1        # a commented element may be cut away with its container: only the tree is compared
         return
     for text in attached:
         if not text:
@@ -164,6 +173,18 @@ def check_spec(name, builder, part, full, widths):
         for texts in variants:
             for width in widths:
                 check_case(name, builder, pl, texts, width, part, basedump)
+    # the same under other settings: comments must stay inert whatever the settings are (the uncommented
+    # print under the same settings is the reference)
+    for settings in SETTINGS:
+        sbase = oracles.run_pformat(raw, **settings)
+        if not sbase.ok():
+            continue
+        sdump = oracles.dump(sbase.text)
+        for pl in placements(ids, full):
+            slots = [(i, k) for i, ks in pl.items() for k in ks]
+            texts = {(i, k): ('c%d' % i if k == 'c' else 't%d' % i) for (i, k) in slots}
+            for width in [w for w in widths if w in (1, 12, 30, 79)]:
+                check_case(name, builder, pl, texts, width, part, sdump, settings=settings)
     part.c['shapes'] += 1
     if len(part.samples) < 1:
         part.sample({'shape': name, 'nodes': len(ids)})
@@ -207,7 +228,10 @@ def replay(case):
     part = core.Part()
     raw = builder(lambda i, v: v)
     basedump = oracles.dump(oracles.run_pformat(raw).text)
-    check_case(case['shape'], builder, pl, texts, case['width'], part, basedump)
+    st = case.get('settings')
+    if st:
+        basedump = oracles.dump(oracles.run_pformat(raw, **st).text)
+    check_case(case['shape'], builder, pl, texts, case['width'], part, basedump, settings=st)
     lines = ['case: %s' % case]
     for v in part.violations:
         lines.append('violation kind=%s detail=%s' % (v['kind'], v['detail']))
